@@ -176,6 +176,16 @@ def search(ck, tier, seed):
             if r[0] != "ok" or not close_enough(r[1][0], full[1][i], torch.float64)[0]:
                 ck.finding("batch:log_prob-row-depends-on-other-rows:%s" % name, "%s row %d" % (name, i), {"search": "dist", "class": name})
                 break
+        # a batch in which neighbouring rows carry the SAME context (what repeat_rows produces, what class-conditional batches look
+        # like): each row still gets the parameters of its own context
+        if c is not None:
+            idx_ = [0, 0, 1, 1, 1, 2, 0]
+            with torch.no_grad():
+                rep = attempt(d.log_prob, x[idx_[:len(idx_)]].clone() if True else None, c[idx_].clone())
+            if rep[0] == "ok" and not close_enough(rep[1], full[1][idx_], torch.float64)[0]:
+                ck.finding("batch:log_prob-row-depends-on-other-rows:repeated-context:%s" % name,
+                           "%s: rows 0,0,1,1,1,2,0 (equal neighbouring contexts) differ from the same rows evaluated in the plain batch by %.3g"
+                           % (name, float((rep[1] - full[1][idx_]).abs().max())), {"search": "dist-repeated-context", "class": name})
         # sub-batches that are VIEWS of the big batch (same storage, same first address, different strides), one after the other:
         # rows 0,1,2 and then rows 0,2,4 - anything remembered about "the" context of the previous call must not leak
         with torch.no_grad():
